@@ -1,6 +1,7 @@
 package harness
 
 import (
+	"strings"
 	"fmt"
 	"os"
 	"testing"
@@ -270,6 +271,9 @@ func TestE3AppendEntries(t *testing.T) {
 			for _, b := range oracleC06(c, resp, post) {
 				rep.Add(Finding{Kind: "oracle", Property: "C06", Oracle: b, Case: line, Impl: impl})
 			}
+			for _, b := range oracleDurableTV(c.pre, post, eff) {
+				rep.Add(Finding{Kind: "oracle", Property: "C08", Oracle: b, Case: line, Impl: impl, Signature: map[string]string{"oracle": "term-vote-durable-before-reply", "handler": "AppendEntries"}})
+			}
 			compareSections(rep, "C06", line, impl, model, aeKeys, []string{"term", "ok"})
 		}
 	})
@@ -319,4 +323,24 @@ func splitSections(s string) []string {
 		}
 	}
 	return append(out, s[start:])
+}
+
+// oracleDurableTV: C08 — when a handler returns, the term and vote it leaves in memory are the
+// ones on storage: if either changed, the last SetState of the call wrote exactly that pair
+// (a crash right after the reply must not bring back an older term or lose the vote).
+func oracleDurableTV(pre, post NodeSt, eff string) []string {
+	if pre.Term == post.Term && pre.Vote == post.Vote {
+		return nil
+	}
+	last := ""
+	for _, tok := range splitTop(strings.TrimPrefix(eff, "eff=")) {
+		if strings.HasPrefix(tok, "ss(") {
+			last = tok
+		}
+	}
+	want := fmt.Sprintf("ss(%d,%d)", post.Term, post.Vote)
+	if last != want {
+		return []string{fmt.Sprintf("the handler returned with term %d and vote %d in memory (before: %d, %d) but the last write to the term/vote storage in this call was %q: after a crash the node would come back with an older term or without its vote", post.Term, post.Vote, pre.Term, pre.Vote, last)}
+	}
+	return nil
 }
